@@ -574,6 +574,30 @@ def rule_koyama_rejection(ctx, rule='R11.v'):
                 bad.append('for l == sigma/2 (Python floats) the constructor raises %s at %s, not the documented ValueError' % (r.exc, r.loc))
     except Unsupported as e:
         ctx.undecided(rule, construct, 'boundary l == sigma/2: %s' % e, m.loc())
+    # the chain length is documented as a float: Koyama(..., length=20.0, ...) must work like length=20
+    try:
+        ipf = _ip(ctx.prog)
+        ipf.natives[('DiscreteKoyama', 'koyama_kernel_fourier')] = _kk_any
+        for s_ in ('sigma', 'l', 'lp'):
+            ipf.declare(s_)
+
+        def run_float(preset):
+            ip_ = _ip(ctx.prog)
+            ip_.preset = list(preset)
+            ip_.natives[('DiscreteKoyama', 'koyama_kernel_fourier')] = _kk_any
+            for s_ in ('sigma', 'l', 'lp'):
+                ip_.declare(s_)
+            n_ = const_num(4)
+            n_.pyfloat = True
+            o_ = ip_.construct(ctx.prog.cls(KOY), [], {'sigma': Num(N.sym('sigma')), 'l': Num(N.sym('l')), 'length': n_,
+                                                     'lp': Num(N.sym('lp'))})
+            ip_.call(ip_.find_method(o_, 'calculate'), [Arr(N.sym('k'), 'k', ip_)], {})
+            return ip_, o_
+        for d, ip, r in explore(run_float, keep_raised=True):
+            if ip is None and r.exc == 'TypeError':
+                bad.append('a chain length given as a float (the documented type, e.g. length=20.0) raises TypeError at %s' % r.loc)
+    except Unsupported as e:
+        ctx.undecided(rule, construct, 'float chain length: %s' % e, m.loc())
     if not normal:
         bad.append('no normally ending constructor path could be analysed')
     if bad:
